@@ -14,8 +14,8 @@ import math
 from fractions import Fraction
 
 from ..astutil import calls, const, kw, parent_map, short
-from ..kai import interpret
-from ..kutil import CannotEvaluate, evaluate, show
+from ..kai import Arr, cond_arg, cond_key, cond_repr, interpret, neg_cond
+from ..kutil import CannotEvaluate, eval_cond_full, evaluate, guard_atoms, show
 from ..program import AnalysisIncomplete, Func, norm
 from ..sym import App, Rat, Sym, walk_atoms
 from .C07 import find_impl
@@ -45,241 +45,638 @@ def find_line_routine(prog, impl):
     return kern, line, cs
 
 
+def _one(r):
+    """the App a with r == a (coefficient 1), else None"""
+    if isinstance(r, Rat) and r.d.is_const() and len(r.n.t) == 1:
+        (mm, c), = r.n.t.items()
+        if len(mm) == 1 and mm[0][1] == 1 and isinstance(mm[0][0], App) and c == r.d.const_value():
+            return mm[0][0]
+    return None
+
+
+def _pos_multiple(a, b):
+    """a == c * b for a positive constant c (comparisons are stored scaled)"""
+    if a == b:
+        return True
+    if b.n.is_zero() or a.n.is_zero():
+        return False
+    r = a / b
+    return r.is_const() and r.const_value() > 0
+
+
+def _flat(conds):
+    """conditions in App-argument form, conjunctions flattened, as a set of printable keys"""
+    out = set()
+    for c in conds:
+        c = cond_arg(c) if (c and c[0] == 'cmp' and len(c) == 4) or (c and c[0] in ('and', 'or', 'not', 'truth') and any(
+            isinstance(x, tuple) and x and x[0] == 'cmp' and len(x) == 4 for x in _walk_cond(c))) else c
+        if c[0] == 'and':
+            out |= _flat(c[1:])
+        else:
+            out.add(repr(c))
+    return out
+
+
+def _walk_cond(c):
+    yield c
+    if isinstance(c, tuple) and c and c[0] in ('and', 'or', 'not'):
+        for x in c[1:]:
+            if isinstance(x, tuple):
+                yield from _walk_cond(x)
+
+
+def _cell_of(r, arr, idx=None):
+    """r is a read of arr (read / cell?) [at idx]; returns (index Rat, serial or None)"""
+    a = _one(r)
+    if a is None or a.name not in ('read', 'cell?') or a.args[0] != arr or len(a.args) < 2:
+        return None
+    if idx is not None and a.args[1] != idx:
+        return None
+    ser = a.args[2].const_value() if a.name == 'cell?' and len(a.args) > 2 else None
+    return a.args[1], ser
+
+
 def check_line(prog, rep, f):
+    """the line routine, on its interpretation: target test (X6), what enters the per-column memory (X1), the three
+    candidates and the coupling between the running squared distance and the adopted pair (X2), the update (X5)"""
     entry = 'proximity line routine'
     P = f.params
     (src, xs, ys, pnx, pny, fwd, lid, width, maxd, prox, nxs, nys, vals, metric) = P[:14]
-    loops = [n for n in f.node.body if isinstance(n, ast.For)]
-    if len(loops) != 1 or not isinstance(loops[0].target, ast.Name):
+    k = interpret(prog, f, strict=False)
+    tops = []
+    for st in k.stores:
+        if st.loops and not any(st.loops[0] is t for t in tops):
+            tops.append(st.loops[0])
+    if len(tops) != 1 or any(not st.loops for st in k.stores):
         rep.add('X2', f, entry, 'pixel loop', f.node.lineno, None, 'single pixel loop not found')
         return
-    lp = loops[0]
-    px = lp.target.id
-    ok = T(lp.iter) in ('prange(start,end,step)', 'range(start,end,step)')
-    pre = {T(s) for s in f.node.body if isinstance(s, ast.Assign)}
-    okdir = {'start=%s-1' % width, 'end=-1', 'step=-1'} <= pre and any(
-        isinstance(s, ast.If) and T(s.test) == fwd and {T(x) for x in s.body} == {'start=0', 'end=%s' % width, 'step=1'}
-        for s in f.node.body)
-    rep.add('X3', f, entry, 'for %s in %s; forward 0..width step 1 / backward width-1..-1 step -1' % (px, norm(lp.iter)),
-            lp.lineno, ok and okdir, 'a line is swept over all its pixels in the requested direction')
-    body = lp.body
-    # ---- X6 target test
-    tif = [s for s in body if isinstance(s, ast.If) and T(s.test) == 'n_values==0']
-    okt = False
-    if len(tif) == 1:
-        a = tif[0]
-        d = [x for x in a.body if isinstance(x, ast.If)]
-        okd = len(d) == 1 and T(d[0].test) in ('%s[%s]!=0andnp.isfinite(%s[%s])' % (src, px, src, px),
-                                              'np.isfinite(%s[%s])and%s[%s]!=0' % (src, px, src, px)) and \
-            [T(x) for x in d[0].body] == ['is_target=True'] and not d[0].orelse
-        e = [x for x in a.orelse if isinstance(x, ast.For)]
-        oke = len(e) == 1 and T(e[0].iter) in ('prange(n_values)', 'range(n_values)') and len(e[0].body) == 1 and \
-            isinstance(e[0].body[0], ast.If) and T(e[0].body[0].test) in (
-                '%s[%s]==%s[%s]' % (src, px, vals, e[0].target.id), '%s[%s]==%s[%s]' % (vals, e[0].target.id, src, px)) and \
-            [T(x) for x in e[0].body[0].body] == ['is_target=True']
-        okt = okd and oke
-    init = any(T(s) == 'is_target=False' for s in body[:2])
-    nv = 'n_values=len(%s)' % vals in pre
-    rep.add('X6', f, entry, 'target test', tif[0].lineno if tif else lp.lineno, okt and init and nv,
-            'default targets are the non-zero finite cells; with explicit target values a cell is a target iff it equals '
-            'one of them; the flag is reset for every pixel')
-    # ---- target stores
-    tg = [s for s in body if isinstance(s, ast.If) and T(s.test) == 'is_target']
-    want = {'%s[%s]=0.0' % (prox, px), '%s[%s]=%s' % (nxs, px, px), '%s[%s]=%s' % (nys, px, lid),
-            '%s[%s]=%s' % (pnx, px, px), '%s[%s]=%s' % (pny, px, lid)}
-    ok = len(tg) == 1 and {T(x) for x in tg[0].body if isinstance(x, ast.Assign)} == want and isinstance(tg[0].body[-1], ast.Continue)
-    rep.add('X1', f, entry, 'target cell: proximity 0, nearest = memory = (pixel, line)', tg[0].lineno if tg else lp.lineno, ok,
+    L = tops[0]
+    px = Rat.sym(L.var)
+    line_id = Rat.sym(lid)
+    FW, Wd = Sym(fwd), Sym(width)
+    try:
+        rng = [tuple(evaluate(x, {FW: Fraction(v), Wd: Fraction(7)}) for x in (L.lo, L.hi, L.step)) for v in (1, 0)]
+        okr = rng == [(0, 7, 1), (6, -1, -1)]
+    except (CannotEvaluate, TypeError):
+        okr, rng = None, '?'
+    rep.add('X3', f, entry, 'pixel loop: forward %s, backward %s on a line of 7' % (rng[0] if okr is not None else '?', rng[1] if okr is not None else '?'),
+            L.node.lineno, okr, 'a line is swept over all its pixels in the requested direction: forward 0..width step 1, backward '
+            'width-1..-1 step -1')
+    # ---- target / non-target split
+    zero = [st for st in k.stores if st.arr.name == prox and isinstance(st.value, Rat) and st.value == Rat.const(0) and len(st.guards) >= 1]
+    if len(zero) != 1:
+        rep.add('X1', f, entry, 'target cell', L.node.lineno, None if not zero else False, 'expected one `proximity = 0` store, found %d' % len(zero))
+        return
+    Gt = zero[0].guards
+    if len(Gt) != 1:
+        rep.add('X1', f, entry, 'target cell', L.node.lineno, None, 'target branch condition is not a single condition')
+        return
+    gt = Gt[0]
+    tkey, nkey = cond_key(gt), cond_key(neg_cond(gt))
+    tgt = [st for st in k.stores if st.guards and cond_key(st.guards[0]) == tkey]
+    rest = [st for st in k.stores if st not in tgt]
+    cont = all(st.guards and cond_key(st.guards[0]) == nkey for st in rest)
+    want = {(prox, repr(Rat.const(0))), (nxs, repr(px)), (nys, repr(line_id)), (pnx, repr(px)), (pny, repr(line_id))}
+    got = {(st.arr.name, repr(st.value)) for st in tgt if tuple(st.idx) == (px,) and len(st.guards) == 1}
+    rep.add('X1', f, entry, 'target cell: proximity 0, nearest = memory = (pixel, line)', zero[0].node.lineno,
+            got == want and len(tgt) == 5 and cont,
             'a target cell has distance 0, names itself, and is remembered as (column = pixel, row = line) - rows with rows, '
-            'columns with columns')
-    # ---- candidate blocks
-    alias = {}
-    for s in body:
-        if isinstance(s, ast.Assign) and isinstance(s.targets[0], ast.Name):
-            alias[s.targets[0].id] = T(s.value)
-    blocks = [s for s in body if isinstance(s, ast.If) and ('%s[' % pnx) in T(s.test) and s is not (tg[0] if tg else None)
-              and 'max_distance' not in T(s.test) and maxd not in T(s.test)]
-    ks = []
-    for b in blocks:
-        t = T(b.test)
-        k = None
-        extra = None
-        if t == '%s[%s]!=-1' % (pnx, px):
-            k, extra = px, None
-        else:
-            for name, val in alias.items():
-                if t.endswith('and%s[%s]!=-1' % (pnx, name)):
-                    k = name
-                    extra = t[:-len('and%s[%s]!=-1' % (pnx, name))]
-        if k is None:
-            rep.add('X2', f, entry, 'candidate block `if %s`' % norm(b.test)[:60], b.lineno, False,
-                    'unrecognised candidate block guard')
-            continue
-        kval = alias.get(k, k)
-        ks.append(kval)
-        st = [T(x) for x in b.body if isinstance(x, ast.Assign)]
-        coords_ok = {'x1=%s[%s[%s],%s[%s]]' % (xs, pny, k, pnx, k), 'y1=%s[%s[%s],%s[%s]]' % (ys, pny, k, pnx, k),
-                     'x2=%s[%s,%s]' % (xs, lid, px), 'y2=%s[%s,%s]' % (ys, lid, px),
-                     'dist=_distance(x1,x2,y1,y2,%s)' % metric, 'dist_sqr=dist**2'} <= set(st)
-        ad = [x for x in b.body if isinstance(x, ast.If)]
-        adopt_ok = False
-        if len(ad) == 1 and T(ad[0].test) in ('dist_sqr<near_distance_square',):
-            a_st = {T(x) for x in ad[0].body}
-            if k == px:
-                adopt_ok = a_st == {'near_distance_square=dist_sqr'} and {T(x) for x in ad[0].orelse} == {
-                    '%s[%s]=-1' % (pnx, px), '%s[%s]=-1' % (pny, px)}
-            else:
-                adopt_ok = a_st == {'near_distance_square=dist_sqr', '%s[%s]=%s[%s]' % (pnx, px, pnx, k),
-                                    '%s[%s]=%s[%s]' % (pny, px, pny, k)} and not ad[0].orelse
-        edge_ok = True
-        if kval == '%s-step' % px:
-            edge_ok = extra == '%s!=start' % px
-        elif kval == '%s+step' % px:
-            edge_ok = extra == '%s!=end' % k
-        rep.add('X2', f, entry, 'candidate k = %s' % kval, b.lineno, coords_ok and adopt_ok and edge_ok,
-                'the distance must be computed from the coordinates of the pair remembered at k (row index from the row '
-                'memory, column index from the column memory) to the current cell, and if it is smaller that SAME pair '
-                'must be adopted (both halves); coordinates ok: %s, adoption ok: %s, edge guard ok: %s'
-                % (coords_ok, adopt_ok, edge_ok))
-    rep.add('X2', f, entry, 'candidate set %s' % sorted(ks), lp.lineno,
-            sorted(ks) == sorted([px, '%s-step' % px, '%s+step' % px]),
+            'columns with columns - and nothing else happens to it (stores %s, rest of the body skipped: %s)' % (sorted(got), cont))
+    check_target_test(prog, rep, f, entry, k, L, gt, src, vals, px)
+    # ---- candidates: the distance computations
+    recs = [r for r in getattr(k, 'inlined', []) if len(r[1]) == 5 and r[1][4] == ('param', metric)]
+    step = L.step
+    cands = {}
+    for r in recs:
+        x1, x2, y1, y2 = r[1][:4]
+        cur_x, cur_y = Rat.atom(App('read', [xs, line_id, px])), Rat.atom(App('read', [ys, line_id, px]))
+        K = None
+        okc = False
+        for mx, cx in ((x1, x2), (x2, x1)):
+            for my, cy in ((y1, y2), (y2, y1)):
+                if cx == cur_x and cy == cur_y:
+                    ax, ay = _one(mx), _one(my)
+                    if ax is not None and ay is not None and ax.name in ('read', 'cell?') and ay.name in ('read', 'cell?') and \
+                            ax.args[0] == xs and ay.args[0] == ys and len(ax.args) >= 3 and len(ay.args) >= 3:
+                        rx, cxx = _cell_of(ax.args[1], pny), _cell_of(ax.args[2], pnx)
+                        ry, cyy = _cell_of(ay.args[1], pny), _cell_of(ay.args[2], pnx)
+                        if rx and cxx and ry and cyy and rx[0] == cxx[0] == ry[0] == cyy[0]:
+                            K = rx[0]
+                            okc = True
+        key = repr(K - px) if K is not None else 'line %d' % r[4].lineno
+        cands[key] = (K, r[3], okc, r[4])
+        rep.add('X2', f, entry, 'candidate k = pixel%s: distance from the pair remembered at k to the current cell' % (
+            '' if K is not None and K == px else ' + (%s)' % (show(K - px, 40) if K is not None else '?')), r[4].lineno, okc,
+            'the distance must be computed from the coordinates of the pair remembered at k (row index from the row memory, '
+            'column index from the column memory, x from the x grid, y from the y grid) to the current cell')
+    ks = [c[0] for c in cands.values() if c[0] is not None]
+    okset = len(recs) == 3 and len(ks) == 3 and {repr(x) for x in ks} == {repr(px), repr(px - step), repr(px + step)}
+    rep.add('X2', f, entry, 'candidate set %s' % sorted(show(x - px, 40) for x in ks), L.node.lineno, okset,
             'the candidates are the targets remembered at the same column (line above/below), the previous pixel and the '
             'diagonal next pixel - exactly {pixel, pixel-step, pixel+step}')
-    ninit = [s for s in body if isinstance(s, ast.Assign) and T(s.targets[0]) == 'near_distance_square']
-    ok = len(ninit) == 1 and T(ninit[0].value) in ('%s**2*2.0' % maxd, '2.0*%s**2' % maxd, 'np.inf')
-    rep.add('X2', f, entry, norm(ninit[0]) if ninit else 'initial candidate distance', lp.lineno, ok,
-            'the running squared distance starts above max_distance^2 for every pixel')
+    # ---- memory stores outside the target branch: paired halves only
+    mem = [st for st in rest if st.arr.name in (pnx, pny)]
+    groups = {}
+    for st in mem:
+        groups.setdefault(tuple(cond_key(g) for g in st.guards), []).append(st)
+    adopt = {}
+    okpair = True
+    whyp = ''
+    for gk, sts in groups.items():
+        vx = [st for st in sts if st.arr.name == pnx]
+        vy = [st for st in sts if st.arr.name == pny]
+        if len(vx) != 1 or len(vy) != 1 or tuple(vx[0].idx) != (px,) or tuple(vy[0].idx) != (px,):
+            okpair, whyp = False, 'unpaired store %s' % norm(sts[0].node)
+            continue
+        a, b = vx[0].value, vy[0].value
+        if a == Rat.const(-1) and b == Rat.const(-1):
+            adopt.setdefault('invalidate', []).append(vx[0])
+            continue
+        ca, cb = _cell_of(a, pnx), _cell_of(b, pny)
+        if ca and cb and ca[0] == cb[0]:
+            adopt[repr(ca[0])] = vx[0]
+        else:
+            okpair, whyp = False, 'the two halves come from different places: %s / %s' % (show(a, 60), show(b, 60))
+    rep.add('X1', f, entry, 'memory updates are whole pairs: (-1, -1) or the pair remembered at one k (%d updates)' % len(groups),
+            L.node.lineno, okpair, 'only the (column, row) of a target or a pair already remembered may enter the per-column memory, '
+            'both halves from the same place; ' + whyp)
+    # ---- the running squared distance mirrors the adoptions
+    ups = [st for st in rest if st.arr.name == prox]
+    if len(ups) != 1 or _one(ups[0].value) is None or _one(ups[0].value).name != 'sqrt':
+        rep.add('X5', f, entry, 'proximity update', L.node.lineno, None if len(ups) != 1 else False,
+                'expected one store proximity[pixel] = sqrt(running squared distance), found %d' % len(ups))
+        return
+    up = ups[0]
+    NDS = _one(up.value).args[0]
+    levels = []
+    N = NDS
+    while True:
+        at = _one(N)
+        if at is None or at.name != 'ite':
+            break
+        cnds, val, prev = [at.args[0]], at.args[1], at.args[2]
+        inner = _one(val)
+        if inner is not None and inner.name == 'ite' and inner.args[2] == prev:
+            cnds.append(inner.args[0])
+            val = inner.args[1]
+        levels.append((cnds, val, prev))
+        N = prev
+    base = N
+    okl = len(levels) == 3
+    why = '%d levels' % len(levels)
+    used = []
+    if okl:
+        for cnds, val, prev in levels:
+            kk = [key for key, (K, D, okc, node) in cands.items() if K is not None and val == D * D]
+            if len(kk) != 1:
+                okl, why = False, 'a level of the running minimum is not one candidate\'s squared distance: %s' % show(val, 80)
+                break
+            K = cands[kk[0]][0]
+            used.append(repr(K))
+            fl = _flat(cnds)
+            cmpk = [x for c in cnds for x in ([c] if c[0] != 'and' else c[1:]) if x[0] == 'cmp' and x[1] in ('<', '<=') and _pos_multiple(x[2], val - prev)]
+            if not cmpk:
+                okl, why = False, 'candidate pixel+(%s) is not compared with the running minimum it replaces' % show(K - px, 30)
+                break
+            if K != px:
+                st = adopt.get(repr(K))
+                if st is None or _flat(st.guards[1:]) != fl:
+                    okl = False
+                    why = 'the pair remembered at pixel+(%s) is adopted under %s but its distance is taken under %s' % (
+                        show(K - px, 30), sorted(_flat(st.guards[1:]))[:3] if st is not None else 'no condition (never)', sorted(fl)[:3])
+                    break
+        if okl and sorted(used) != sorted(repr(x) for x in ks):
+            okl, why = False, 'levels %s' % used
+        if okl and (walk_atoms(base) & {a for c in cands.values() for a in walk_atoms(c[1])}):
+            okl, why = False, 'initial running minimum depends on a candidate'
+    rep.add('X2', f, entry, 'running squared distance = distance of the adopted pair (3 levels over %s)' % show(base, 60), up.node.lineno, okl,
+            'whenever a candidate\'s squared distance becomes the running minimum that SAME pair must be adopted into the memory '
+            '(both halves), under the same condition, and vice versa; ' + why)
+    # validity / edge conditions of the candidates
+    if okl:
+        bad = []
+        try:
+            for cnds, val, prev in levels:
+                K = cands[[key for key, c in cands.items() if c[0] is not None and val == c[1] * c[1]][0]][0]
+                side = [c for c in (x for cc in cnds for x in (cc[1:] if cc[0] == 'and' else [cc])) if not (c[0] == 'cmp' and _pos_multiple(c[2], val - prev))]
+                cells = [a for a in guard_atoms(side) if isinstance(a, App) and a.name in ('read', 'cell?') and a.args[0] == pnx]
+                for fw in (1, 0):
+                    for p in (0, 3, 6):
+                        for valid in (-1, 2):
+                            env = {FW: Fraction(fw), Wd: Fraction(7), Sym(L.var): Fraction(p)}
+                            for a in cells:
+                                env[a] = Fraction(valid)
+                            kv = evaluate(K, env)
+                            want = valid != -1 and 0 <= kv <= 6
+                            gotv = all(eval_cond_full(c, env) for c in side)
+                            if gotv != want:
+                                bad.append((fw, p, valid))
+        except CannotEvaluate as e:
+            bad = None
+            why = str(e)
+        rep.add('X2', f, entry, 'a candidate is used only when its memory slot is valid and lies on the line', L.node.lineno,
+                None if bad is None else not bad, 'a slot holding -1 names no target, and slot pixel-step / pixel+step does not exist at the '
+                'first / last pixel of the sweep (forward, pixel, slot value) wrong for %s' % (bad if bad is not None else why))
     # ---- X5 update
-    up = [s for s in body if isinstance(s, ast.If) and (maxd in T(s.test)) and s not in blocks]
-    ok = False
-    if len(up) == 1:
-        t = T(up[0].test)
-        conj = {x for x in (T(v) for v in up[0].test.values)} if isinstance(up[0].test, ast.BoolOp) else set()
-        need1 = '%s[%s]!=-1' % (pnx, px)
-        need2 = {'%s*%s>=near_distance_square' % (maxd, maxd), '%s**2>=near_distance_square' % maxd,
-                 'near_distance_square<=%s*%s' % (maxd, maxd)}
-        need3 = {'(%s[%s]<0ornear_distance_square<%s[%s]*%s[%s])' % (prox, px, prox, px, prox, px),
-                 '%s[%s]<0ornear_distance_square<%s[%s]*%s[%s]' % (prox, px, prox, px, prox, px)}
-        st = {T(x) for x in up[0].body}
-        ok = need1 in conj and bool(conj & need2) and bool(conj & need3) and len(conj) == 3 and st == {
-            '%s[%s]=sqrt(near_distance_square)' % (prox, px), '%s[%s]=%s[%s]' % (nxs, px, pnx, px),
-            '%s[%s]=%s[%s]' % (nys, px, pny, px)}
-    rep.add('X5', f, entry, 'proximity update', up[0].lineno if up else lp.lineno, ok,
-            'the stored distance is sqrt of the adopted squared distance, stored only if a pair is remembered, it is within '
-            'max_distance and improves the current value - together with that pair as the nearest target (paired update)')
+    lastmem = max([st.seq for st in mem] + [0])
+    upk = tuple(cond_key(g) for g in up.guards)
+    ug = [st for st in rest if tuple(cond_key(g) for g in st.guards) == upk]
+    vx = [st for st in ug if st.arr.name == nxs]
+    vy = [st for st in ug if st.arr.name == nys]
+    oku = len(vx) == 1 and len(vy) == 1 and len(ug) == 3
+    whyu = '%d stores in the update' % len(ug)
+    if oku:
+        cx, cy = _cell_of(vx[0].value, pnx, px), _cell_of(vy[0].value, pny, px)
+        oku = bool(cx and cy and (cx[1] or 0) > lastmem and (cy[1] or 0) > lastmem)
+        whyu = 'nearest pair must be read from the memory at the pixel after the adoptions'
+    if oku:
+        fl = [c for g in up.guards[1:] for c in (g[1:] if g[0] == 'and' else [g])]
+        valid = [c for c in fl if c[0] == 'cmp' and c[1] == '!=' and _cell_of(c[3] - Rat.const(1), pnx, px) and
+                 (_cell_of(c[3] - Rat.const(1), pnx, px)[1] or 0) > lastmem]
+        M = Rat.sym(maxd)
+        within = [c for c in fl if c[0] == 'cmp' and c[1] in ('<=', '<') and _pos_multiple(c[3], NDS - M * M)]
+        oku = bool(valid) and bool(within)
+        whyu = 'valid slot test %d, within-max-distance test %d' % (len(valid), len(within))
+    rep.add('X5', f, entry, 'proximity update: sqrt(running minimum) with the remembered pair, if valid and within max_distance',
+            up.node.lineno, oku, 'the stored distance is sqrt of the adopted squared distance, stored only if a pair is remembered and it is '
+            'within max_distance - together with that pair as the nearest target (paired update); ' + whyu)
+    others = [st for st in rest if st.arr.name in (prox, nxs, nys) and st not in ug]
+    rep.add('X5', f, entry, 'no other store into the result arrays (%d)' % len(others), L.node.lineno, not others,
+            'distance and nearest pair change only in the target branch and in the update' + (': ' + norm(others[0].node) if others else ''))
+
+
+def check_target_test(prog, rep, f, entry, k, L, gt, src, vals, px):
+    """X6: default targets are the non-zero finite cells; with explicit values a cell is a target iff it equals one"""
+    v = App('read', [src, px])
+    atoms = guard_atoms([gt])
+    n_at = [a for a in atoms if isinstance(a, App) and a.name == 'len']
+    fin = [a for a in atoms if isinstance(a, App) and a.name == 'isfinite' and a.args[0] == Rat.atom(v)]
+    flags = [a for a in atoms if isinstance(a, App) and a.name == 'loopout']
+    elems = [a for a in atoms if isinstance(a, App) and a.name in ('read', 'elem') and a.args[0] == vals]
+    ok = None
+    why = ''
+    stale = [a for a in atoms if isinstance(a, Sym) and '~loop' in a.name]
+    if stale:
+        rep.add('X6', f, entry, 'target test', L.node.lineno, False, 'the target flag is carried over from the previous pixel (%s): it must '
+                'be reset for every pixel, otherwise every cell after the first target counts as a target' % stale[0].name)
+        return
+    try:
+        if len(n_at) != 1 or len(fin) > 1 or len(flags) > 1:
+            raise CannotEvaluate('quantities: len %d isfinite %d flags %d' % (len(n_at), len(fin), len(flags)))
+        res = []
+        for title, n, vv, fn, flag, want in (('no values, zero cell', 0, 0, 1, 0, False), ('no values, finite non-zero', 0, 5, 1, 0, True),
+                                             ('no values, non-finite', 0, 5, 0, 0, False), ('no values, negative', 0, -2, 1, 0, True),
+                                             ('values given, cell equals one', 2, 5, 1, 1, True), ('values given, equals none', 2, 5, 1, 0, False),
+                                             ('values given, zero cell equal to a value', 2, 0, 1, 1, True)):
+            env = {n_at[0]: Fraction(n), v: Fraction(vv)}
+            for a in fin:
+                env[a] = Fraction(fn)
+            for a in flags:
+                env[a] = Fraction(flag)
+            res.append((title, eval_cond_full(gt, env), want))
+        bad = [(t, g) for t, g, w in res if g != w]
+        ok = not bad
+        why = 'wrong for %s' % bad
+        if flags:
+            fl = flags[0]
+            Lv = next((lp for lp in k.loops if Rat.sym(lp.var) == fl.args[1]), None)
+            name = next(iter(fl.args[0].atoms())).name
+            if Lv is None or name not in getattr(Lv, 'carried', {}) or Lv.pre.get(name) != ('const', False):
+                ok = False if Lv is not None and Lv.pre.get(name) != ('const', False) else None
+                why = 'the flag must start False for every pixel and be updated in a loop over the values'
+            else:
+                phi, post = Lv.carried[name]
+                P = next(iter(phi.atoms()))
+                e = [a for a in walk_atoms(post) if isinstance(a, App) and a.name in ('read', 'elem') and a.args[0] == vals]
+                full = Lv.kind in ('range', 'prange') and Lv.lo == Rat.const(0) and Lv.hi == Rat.atom(n_at[0]) and Lv.step == Rat.const(1) \
+                    and len(e) == 1 and len(e[0].args) == 2 and e[0].args[1] == Rat.sym(Lv.var)
+                tab = []
+                for prev in (0, 1):
+                    for vv, ev in ((5, 5), (5, 7), (0, 0)):
+                        r = evaluate(post, {P: Fraction(prev), v: Fraction(vv), e[0]: Fraction(ev)}) if e else None
+                        tab.append((prev, vv, ev, r, 1 if (prev or vv == ev) else 0))
+                badf = [t for t in tab if t[3] != t[4]]
+                if badf or not full:
+                    ok = False
+                    why = 'flag update wrong for (previous, cell, value): %s; loop over all values: %s' % (badf, full)
+    except CannotEvaluate as ex:
+        ok, why = None, str(ex)
+    rep.add('X6', f, entry, 'target test', L.node.lineno, ok,
+            'default targets are the non-zero finite cells; with explicit target values a cell is a target iff it equals one of '
+            'them; the flag is reset for every pixel; ' + why)
 
 
 def check_driver(prog, rep, kern, line, cs):
+    """the four-sweep driver, on the program-ordered events (allocations, stores, calls) of its interpretation"""
     entry = 'proximity four-sweep driver'
-    rowloops = [n for n in kern.node.body if isinstance(n, ast.For) and any(c in list(ast.walk(n)) for c in cs)]
+    k = interpret(prog, kern, strict=False)
+    ev = k.events
+    calls_ = [(i, e[1]) for i, e in enumerate(ev) if e[0] == 'call' and len(e[1]) > 6 and e[1][6] is line]
+    img = kern.params[0]
+    H, W = Rat.atom(App('shape', [img, 0])), Rat.atom(App('shape', [img, 1]))
+
+    def rng(L):
+        return (L.lo, L.hi, L.step) if L.kind in ('range', 'prange') else None
+    rows = []
+    for i, c in calls_:
+        if len(c[4]) != 1:
+            rows.append(None)
+        else:
+            rows.append(c[4][0])
     dirs = []
-    for lp in rowloops:
-        t = T(lp.iter)
-        d = 'asc' if t in ('prange(height)', 'range(height)') else 'desc' if t in ('prange(height-1,-1,-1)', 'range(height-1,-1,-1)') else t
-        fw = []
-        for c in cs:
-            if c in list(ast.walk(lp)):
-                fw.append(T(c.args[5]))
-        dirs.append((d, sorted(fw)))
-    ok = dirs == [('asc', ['False', 'True']), ('desc', ['False', 'True'])]
-    rep.add('X3', kern, entry, 'sweeps %s' % dirs, kern.node.lineno, ok,
+    for L in rows:
+        if L is None:
+            dirs.append('?')
+        elif rng(L) == (Rat.const(0), H, Rat.const(1)):
+            dirs.append('asc')
+        elif rng(L) == (H - Rat.const(1), Rat.const(-1), Rat.const(-1)):
+            dirs.append('desc')
+        else:
+            dirs.append(repr(L))
+    fws = [c[1][5] for i, c in calls_]
+    passes = []
+    for L in rows:
+        if L is not None and not any(L is p for p in passes):
+            passes.append(L)
+    sweeps = [(d, sorted(repr(fw) for fw, r in zip(fws, rows) if r is p)) for p, d in
+              ((p, dirs[[i for i, r in enumerate(rows) if r is p][0]]) for p in passes)]
+    want = [('asc', sorted([repr(('const', False)), repr(('const', True))])), ('desc', sorted([repr(('const', False)), repr(('const', True))]))]
+    oks = len(calls_) == 4 and sweeps == want
+    rep.add('X3', kern, entry, 'sweeps %s' % [(d, [x[-6:-1].strip(' ,') for x in f_]) for d, f_ in sweeps], kern.node.lineno, oks,
             'one pass over ascending rows and one over descending rows, each sweeping every line forward and backward')
-    # calls share arguments (besides direction)
-    arg_sets = {tuple(T(a) for i, a in enumerate(c.args) if i != 5) for c in cs}
-    rep.add('X3', kern, entry, 'the four calls pass the same arrays', kern.node.lineno, len(arg_sets) == 1 and len(cs) == 4,
-            'all four sweeps must work on the same line, coordinate grids, memories and result arrays')
-    if len(arg_sets) != 1:
+    if not oks:
         return
-    a = [T(x) for x in cs[0].args]
-    pnx, pny, lid, prox, nxs, nys = a[3], a[4], a[6], a[9], a[10], a[11]
-    # memory reset before each row pass
-    body = kern.node.body
-    for lp in rowloops:
-        i = body.index(lp)
-        prev = None
+    P = line.params
+    pos = {p: i for i, p in enumerate(P)}
+    (src, xs, ys, pnx, pny, fwd, lid, width, maxd, prox, nxs, nys, vals, metric) = P[:14]
+
+    def arg(c, p):
+        return c[1][pos[p]]
+
+    def same(a, b):
+        if isinstance(a, Arr) or isinstance(b, Arr):
+            return a is b or (isinstance(a, Arr) and isinstance(b, tuple) and b[:1] == ('param',) and b[1] == a.name) or \
+                (isinstance(b, Arr) and isinstance(a, tuple) and a[:1] == ('param',) and a[1] == b.name)
+        return repr(a) == repr(b)
+    c0 = calls_[0][1]
+    shared = all(same(arg(c, p), arg(c0, p)) for i, c in calls_ for p in P[:14] if p not in (fwd, lid))
+    lines_ok = all(arg(c, lid) == Rat.sym(r.var) for (i, c), r in zip(calls_, rows)) and all(arg(c, width) == W for i, c in calls_)
+    rep.add('X3', kern, entry, 'the four calls pass the same arrays, the row being swept and the raster width', kern.node.lineno,
+            shared and lines_ok, 'all four sweeps must work on the same line buffer, coordinate grids, memories and result arrays, '
+            'with line_id = the row loop variable and width = number of columns')
+    if not shared:
+        return
+    A = {p: arg(c0, p) for p in (src, pnx, pny, prox, nxs, nys)}
+    if not all(isinstance(a, Arr) for a in A.values()):
+        rep.add('X3', kern, entry, 'work arrays', kern.node.lineno, None, 'work arrays are not local allocations')
+        return
+    xg, yg = arg(c0, xs), arg(c0, ys)
+    okgrid = _param_name(xg) == kern.params[1] and _param_name(yg) == kern.params[2]
+    rep.add('X3', kern, entry, 'coordinate grids: x grid = %s, y grid = %s' % (_param_name(xg), _param_name(yg)), kern.node.lineno, okgrid,
+            'the x grid must be passed as xs and the y grid as ys')
+
+    def touches(e, arr):
+        if e[0] == 'alloc':
+            return e[1] is arr
+        if e[0] == 'store':
+            return e[1].arr is arr
+        if e[0] == 'call':
+            return any(a is arr for a in e[1][1])
+        return False
+
+    def state_before(i, arr, ctx):
+        """how arr was last written before event i: ('fill', value) / ('each', value, loop var) / ('call',) / ('partial',) /
+        None; ctx = the loops enclosing the point of use"""
         for j in range(i - 1, -1, -1):
-            if isinstance(body[j], ast.For):
-                prev = body[j]
-                break
-            if not isinstance(body[j], (ast.Assign, ast.Expr)) or (isinstance(body[j], ast.Expr) and not isinstance(body[j].value, ast.Constant)):
-                break
-        ok = isinstance(prev, ast.For) and {T(s) for s in prev.body} == {'%s[%s]=-1' % (pnx, T(prev.target)), '%s[%s]=-1' % (pny, T(prev.target))} \
-            and T(prev.iter) in ('prange(width)', 'range(width)')
-        rep.add('X3', kern, entry, 'per-column memory reset before the %s pass' % ('first' if lp is rowloops[0] else 'second'),
-                lp.lineno, ok, 'targets remembered from the previous pass direction must not leak into the next pass')
-    # nearest pair reset before each call
-    pm = parent_map(kern.node)
-    for c in cs:
-        st = c
-        while not isinstance(pm.get(st), ast.For) or pm.get(st) not in rowloops:
-            st = pm.get(st)
-            if st is None:
-                break
-        lp = pm.get(st) if st is not None else None
-        ok = False
-        if lp is not None:
-            i = lp.body.index(st)
-            prev = lp.body[i - 1] if i > 0 else None
-            if isinstance(prev, ast.For):
-                s = {T(x) for x in prev.body}
-                iv = T(prev.target)
-                ok = {'%s[%s]=-1' % (nxs, iv), '%s[%s]=-1' % (nys, iv)} <= s
-        rep.add('X4', kern, entry, 'nearest pair reset before the sweep at line %d' % c.lineno, c.lineno, ok,
+            e = ev[j]
+            if not touches(e, arr):
+                continue
+            if e[0] == 'alloc':
+                init = arr.init
+                if init == 'zeros':
+                    return ('fill', Rat.const(0), j)
+                if init == 'ones':
+                    return ('fill', Rat.const(1), j)
+                if init == 'nan':
+                    return ('fill', Rat.atom(App('nan', [])), j)
+                if isinstance(init, tuple) and init[0] == 'full':
+                    return ('fill', init[1], j)
+                return ('alloc', None, j)
+            if e[0] == 'call':
+                return ('call', e[1], j)
+            st = e[1]
+            if st.guards:
+                return ('partial', st, j)
+            outer = list(st.loops)
+            if st.idx == 'all' or (not isinstance(st.idx, str) and all(isinstance(x, tuple) and x[0] == 'slice' and x[1] is None and x[2] is None for x in st.idx)):
+                if all(any(o is c for c in ctx) for o in outer):
+                    return ('fill', st.value, j)
+                return ('partial', st, j)
+            if len(st.idx) == 1 and outer and rng(outer[-1]) == (Rat.const(0), W, Rat.const(1)) and st.idx[0] == Rat.sym(outer[-1].var) \
+                    and all(any(o is c for c in ctx) for o in outer[:-1]):
+                return ('each', st.value, j, outer[-1])
+            return ('partial', st, j)
+        return None
+
+    def is_all(state, value):
+        return state is not None and state[0] in ('fill', 'each') and isinstance(state[1], Rat) and state[1] == value
+    # ---- memory reset before each pass
+    first_of = {}
+    for (i, c), r in zip(calls_, rows):
+        first_of.setdefault(id(r), i)
+    prev_end = 0
+    for pi, p in enumerate(passes):
+        i = first_of[id(p)]
+        sx, sy = state_before(i, A[pnx], [p]), state_before(i, A[pny], [p])
+        ok = is_all(sx, Rat.const(-1)) and is_all(sy, Rat.const(-1)) and sx[2] >= prev_end and sy[2] >= prev_end
+        rep.add('X3', kern, entry, 'per-column memory reset before the %s pass' % ('first' if pi == 0 else 'second'),
+                p.node.lineno, ok, 'targets remembered from the previous pass direction must not leak into the next pass: both '
+                'memory arrays must be entirely -1 when a pass starts')
+        prev_end = max(j for (j, c), r in zip(calls_, rows) if r is p)
+    # ---- nearest pair reset before each call; line buffer; distances
+    for n, ((i, c), r) in enumerate(zip(calls_, rows)):
+        sx, sy = state_before(i, A[nxs], [r]), state_before(i, A[nys], [r])
+        lower = max([j for (j, c2), r2 in zip(calls_, rows) if j < i] + [-1])
+        ok = is_all(sx, Rat.const(-1)) and is_all(sy, Rat.const(-1)) and sx[2] > lower and sy[2] > lower and \
+            _in_loop(ev[sx[2]], r) and _in_loop(ev[sy[2]], r)
+        rep.add('X4', kern, entry, 'nearest pair reset before the sweep at line %d' % c[3].lineno, c[3].lineno, ok,
                 'the per-line result pair must be cleared before every sweep so that allocation/direction read the pair '
                 'stored by THAT sweep')
-    # line read and first-pass distance carried into the second pass
-    t_all = {T(s) for s in ast.walk(kern.node) if isinstance(s, ast.Assign)}
-    ok = 'scan_line[i]=img[line][i]' in t_all or 'scan_line[i]=img[line,i]' in t_all
-    rep.add('X3', kern, entry, 'scan line = img[line]', kern.node.lineno, ok, 'each sweep must read the current row of the raster')
-    # X6b: the line buffer keeps the raster's own dtype (the target test compares raster values exactly)
-    src = a[0]
-    allocs = [n for n in kern.own_nodes() if isinstance(n, ast.Assign) and T(n.targets[0]) == src and isinstance(n.value, ast.Call)]
-    img = kern.params[0]
-    okb = False
-    txt = None
-    if len(allocs) == 1:
-        c = allocs[0].value
-        txt = T(allocs[0])
-        dt = kw(c, 'dtype')
-        if short(c) in ('zeros', 'empty', 'ones') and dt is not None:
-            okb = T(dt) == '%s.dtype' % img
-        elif short(c) in ('zeros_like', 'empty_like', 'copy') and dt is None:
-            okb = img in T(c)
-    rep.add('X6', kern, entry, 'line buffer: %s' % txt, allocs[0].lineno if allocs else kern.node.lineno, okb,
+    for pi, p in enumerate(passes):
+        i = first_of[id(p)]
+        s = state_before(i, A[src], [p])
+        rowv = Rat.sym(p.var)
+        okl = False
+        if s is not None and s[0] == 'each' and _in_loop(ev[s[2]], p):
+            v = s[1]
+            iv = Rat.sym(s[3].var)
+            okl = v == Rat.atom(App('read', [img, rowv, iv])) or v == Rat.atom(App('getitem', [Rat.atom(App('read', [img, rowv])), iv]))
+        elif s is not None and s[0] == 'fill' and _in_loop(ev[s[2]], p):
+            v = s[1]
+            okl = isinstance(v, Rat) and (v == Rat.atom(App('read', [img, rowv])) or repr(v) == repr(Rat.atom(App('view', [img, (('idx', rowv), ('slice', Rat.atom(App('none', [])), Rat.atom(App('none', []))))]))))
+            if not okl and isinstance(v, Rat):
+                at = _one(v)
+                okl = at is not None and at.name == 'view' and at.args[0] == img and 'idx' in repr(at.args[1]) and repr(rowv) in repr(at.args[1])
+        rep.add('X3', kern, entry, 'scan line = img[row] in the %s pass' % ('first' if pi == 0 else 'second'), p.node.lineno, okl,
+                'each sweep must read the current row of the raster')
+    dt = A[src].dtype
+    okb = dt is not None and dt.replace(' ', '') == '%s.dtype' % img or (isinstance(dt, tuple) and dt[0] == 'like' and dt[1] == img)
+    rep.add('X6', kern, entry, 'line buffer dtype: %s' % (dt,), kern.node.lineno, okb,
             'the buffer that holds the current raster row must have the raster\'s own dtype: narrowing it (e.g. float32) '
             'changes values before the target test (ids above 2**24, tiny/huge floats) so real targets are missed')
-    ok = '%s[i]=img_distance[line][i]' % prox in t_all and 'img_distance[line][i]=%s[i]' % prox in t_all and '%s[i]=-1.0' % prox in t_all
-    rep.add('X3', kern, entry, 'distances initialised to -1, saved per line, reloaded in the second pass', kern.node.lineno, ok,
-            'the second pass must start from the first pass\' distances')
-    # outputs
-    outs = [n for n in ast.walk(kern.node) if isinstance(n, ast.Assign) and T(n.targets[0]) in ('output_img[line][i]', 'output_img[line,i]')]
-    al = [n for n in outs if '_calc_direction' not in T(n.value)]
-    di = [n for n in outs if '_calc_direction' in T(n.value)]
-    okal = len(al) == 4 and all(T(n.value) in ('img[%s[i],%s[i]]' % (nys, nxs),) for n in al)
-    okdi = len(di) == 4 and all(T(n.value) == '_calc_direction(x_coords[line,i],x_coords[%s[i],%s[i]],y_coords[line,i],y_coords[%s[i],%s[i]],)' % (nys, nxs, nys, nxs)
-                                or T(n.value) == '_calc_direction(x_coords[line,i],x_coords[%s[i],%s[i]],y_coords[line,i],y_coords[%s[i],%s[i]])' % (nys, nxs, nys, nxs) for n in di)
-    rep.add('X4', kern, entry, 'allocation = img[nearest row, nearest col] (%d sites)' % len(al), kern.node.lineno, okal,
-            'allocation must read the raster at the remembered pair: row index from the row array, column index from the column array')
-    rep.add('X4', kern, entry, 'direction = bearing(cell -> remembered pair) (%d sites)' % len(di), kern.node.lineno, okdi,
-            'direction must be computed from the cell\'s coordinates to the coordinates of the remembered pair')
-    guards = 0
-    for n in outs:
-        p = pm.get(n)
-        g = pm.get(p) if isinstance(p, ast.If) else None
-        chain = [x for x in (p, g, pm.get(g) if g is not None else None) if isinstance(x, ast.If)]
-        if any(T(x.test) == '%s[i]!=-1and%s[i]>=0' % (nxs, prox) for x in chain):
-            guards += 1
-    rep.add('X4', kern, entry, 'outputs written only for cells whose sweep found a target (%d/%d)' % (guards, len(outs)),
-            kern.node.lineno, guards == len(outs) and len(outs) == 8, 'every allocation/direction store must be under `nearest != -1 and proximity >= 0`')
-    nanfix = any(isinstance(n, ast.If) and T(n.test) == '%s[i]<0' % prox and any(T(s) == '%s[i]=np.nan' % prox for s in n.body)
-                 for n in ast.walk(kern.node))
+    # distances: -1 before the first pass of a line, saved per line, reloaded in the second pass, saved again
+    p1, p2 = passes
+    i1 = first_of[id(p1)]
+    s = state_before(i1, A[prox], [p1])
+    ok1 = is_all(s, Rat.const(-1)) and _in_loop(ev[s[2]], p1)
+    saves = [(j, e[1]) for j, e in enumerate(ev) if e[0] == 'store' and not e[1].guards and e[1].loops and
+             any(e[1].loops[0] is p for p in passes) and _saves_row(e[1], A[prox], W)]
+    imgd = {st.arr.name for j, st in saves}
+    last1 = max(j for (j, c), r in zip(calls_, rows) if r is p1)
+    last2 = max(j for (j, c), r in zip(calls_, rows) if r is p2)
+    ok2 = len(imgd) == 1 and any(j > last1 and st.loops[0] is p1 for j, st in saves) and any(j > last2 and st.loops[0] is p2 for j, st in saves)
+    i2 = first_of[id(p2)]
+    s2 = state_before(i2, A[prox], [p2])
+    ok3 = False
+    if len(imgd) == 1 and s2 is not None and s2[0] in ('each', 'fill') and _in_loop(ev[s2[2]], p2) and isinstance(s2[1], Rat):
+        D = next(iter(imgd))
+        rowv = Rat.sym(p2.var)
+        at = _one(s2[1])
+        if s2[0] == 'each' and at is not None and at.name in ('read', 'cell?') and at.args[0] == D and tuple(at.args[1:3]) == (rowv, Rat.sym(s2[3].var)):
+            ok3 = True
+        if s2[0] == 'each' and at is not None and at.name == 'getitem':
+            ok3 = repr(at.args[0]) in (repr(Rat.atom(App('read', [D, rowv]))),) and at.args[1] == Rat.sym(s2[3].var)
+        if s2[0] == 'fill' and at is not None and at.name == 'view' and at.args[0] == D and repr(rowv) in repr(at.args[1]):
+            ok3 = True
+    rep.add('X3', kern, entry, 'distances initialised to -1, saved per line, reloaded in the second pass', kern.node.lineno,
+            ok1 and ok2 and ok3, 'the second pass must start from the first pass\' distances (start -1: %s, saved after each pass: %s, '
+            'reloaded: %s)' % (ok1, ok2, ok3))
+    # ---- outputs after each sweep
+    rets = [v for v, g in k.returns if isinstance(v, Arr)]
+    outs_arr = [a for a in rets if a.name not in imgd]
+    nal = ndi = ngu = 0
+    total = 0
+    bounds = [j for j, c in calls_] + [len(ev)]
+    inl = getattr(k, 'inlined', [])
+    for n, (i, c) in enumerate(calls_):
+        seg = [e[1] for e in ev[i + 1:bounds[n + 1]] if e[0] == 'store' and any(e[1].arr is a for a in outs_arr)]
+        # only those written before the nearest pair is reset again
+        nxt_reset = min([j for j in range(i + 1, bounds[n + 1]) if ev[j][0] == 'store' and ev[j][1].arr is A[nxs]] + [bounds[n + 1]])
+        seg = [e[1] for e in ev[i + 1:nxt_reset] if e[0] == 'store' and any(e[1].arr is a for a in outs_arr)]
+        r = rows[n]
+        for st in seg:
+            total += 1
+            if len(st.idx) != 2 or st.idx[0] != Rat.sym(r.var) or not st.loops or st.idx[1] != Rat.sym(st.loops[-1].var) or \
+                    rng(st.loops[-1]) != (Rat.const(0), W, Rat.const(1)):
+                continue
+            iv = st.idx[1]
+            # guard: nearest != -1 and proximity >= 0
+            ats = guard_atoms(st.guards)
+            cn = [a for a in ats if isinstance(a, App) and a.name in ('read', 'cell?') and a.args[0] == A[nxs].name and a.args[1] == iv]
+            cp = [a for a in ats if isinstance(a, App) and a.name in ('read', 'cell?') and a.args[0] == A[prox].name and a.args[1] == iv]
+            try:
+                modes = [a for a in ats if isinstance(a, Sym)]
+                def act(nv, pv):
+                    env = {a: Fraction(nv) for a in cn}
+                    env.update({a: Fraction(pv) for a in cp})
+                    return any(all(eval_cond_full(g, {**env, **{mm: Fraction(mv) for mm in modes}}) for g in st.guards) for mv in (0, 1, 2, 3))
+                if cn and cp and act(3, 2) and not act(-1, 2) and not act(3, -1) and act(3, 0):
+                    ngu += 1
+            except CannotEvaluate:
+                pass
+            v = st.value
+            ry = Rat.atom(_first(lambda a: a.name in ('read', 'cell?') and a.args[0] == A[nys].name and a.args[1] == iv, walk_atoms(v)))
+            rx = Rat.atom(_first(lambda a: a.name in ('read', 'cell?') and a.args[0] == A[nxs].name and a.args[1] == iv, walk_atoms(v)))
+            if ry is None or rx is None:
+                continue
+            at = _one(v)
+            if at is not None and at.name in ('read', 'cell?') and at.args[0] == img and _same_cell(at.args[1], A[nys].name, iv) and \
+                    _same_cell(at.args[2], A[nxs].name, iv):
+                nal += 1
+                continue
+            # direction: the bearing helper applied to (x[row, i], x[near], y[row, i], y[near])
+            for rec in inl:
+                if rec[3] == v and len(rec[1]) == 4 and rec[0].name == '_calc_direction':
+                    a1, a2, a3, a4 = rec[1]
+                    xa, ya = _param_name(xg), _param_name(yg)
+                    okd = a1 == Rat.atom(App('read', [xa, Rat.sym(r.var), iv])) and a3 == Rat.atom(App('read', [ya, Rat.sym(r.var), iv])) and \
+                        _near_read(a2, xa, A[nys].name, A[nxs].name, iv) and _near_read(a4, ya, A[nys].name, A[nxs].name, iv)
+                    if okd:
+                        ndi += 1
+                    break
+    rep.add('X4', kern, entry, 'allocation = img[nearest row, nearest col] (%d sites)' % nal, kern.node.lineno, nal == 4,
+            'allocation must read the raster at the remembered pair: row index from the row array, column index from the column array, '
+            'after each of the four sweeps')
+    rep.add('X4', kern, entry, 'direction = bearing(cell -> remembered pair) (%d sites)' % ndi, kern.node.lineno, ndi == 4,
+            'direction must be computed from the cell\'s coordinates to the coordinates of the remembered pair, after each of the four sweeps')
+    rep.add('X4', kern, entry, 'outputs written only for cells whose sweep found a target (%d/%d)' % (ngu, total),
+            kern.node.lineno, ngu == total and total == 8, 'every allocation/direction store must be under `nearest != -1 and proximity >= 0`')
+    # NaN for unreached cells after the last sweep, before the final save
+    nanfix = False
+    for j in range(last2 + 1, len(ev)):
+        e = ev[j]
+        if e[0] == 'store' and e[1].arr is A[prox] and isinstance(e[1].value, Rat) and e[1].value == Rat.atom(App('nan', [])) and e[1].guards:
+            st = e[1]
+            cp = [a for a in guard_atoms(st.guards) if isinstance(a, App) and a.name in ('read', 'cell?') and a.args[0] == A[prox].name]
+            try:
+                if cp and all(eval_cond_full(g, {a: Fraction(-1) for a in cp}) for g in st.guards) and \
+                        not all(eval_cond_full(g, {a: Fraction(0) for a in cp}) for g in st.guards) and \
+                        any(jj > j for jj, s2_ in saves if s2_.loops[0] is p2):
+                    nanfix = True
+            except CannotEvaluate:
+                pass
     rep.add('X5', kern, entry, 'unreached cells (distance < 0) become NaN', kern.node.lineno, nanfix,
-            'a cell with no target within max_distance must be NaN')
-    init = 'output_img=np.full((height,width),np.nan,dtype=np.float32)' in t_all
+            'a cell with no target within max_distance must be NaN (set after the last sweep of the line and before the line is saved)')
+    init = len(outs_arr) == 1 and outs_arr[0].init == 'nan'
     rep.add('X5', kern, entry, 'allocation/direction image NaN-initialised', kern.node.lineno, init, 'cells without a target are NaN in all outputs')
-    rets = [n for n in kern.own_nodes() if isinstance(n, ast.Return)]
-    ok = len(rets) == 2 and any(isinstance(n, ast.If) and T(n.test) == 'process_mode==PROXIMITY' and T(n.body[0]) == 'returnimg_distance'
-                                and T(n.orelse[0]) == 'returnoutput_img' for n in kern.own_nodes())
-    rep.add('X4', kern, entry, 'proximity mode returns the distances, other modes the output image', kern.node.lineno, ok, '')
+    modes = {}
+    for v, g in k.returns:
+        if isinstance(v, Arr):
+            modes[v.name] = [cond_repr(x) for x in g]
+    okr = len(k.returns) == 2 and len(imgd) == 1 and next(iter(imgd)) in modes and \
+        modes[next(iter(imgd))] == ['free:process_mode == 0'] and len(outs_arr) == 1
+    rep.add('X4', kern, entry, 'proximity mode returns the distances, other modes the output image', kern.node.lineno, okr, '%s' % modes)
+
+
+def _in_loop(e, L):
+    loops = e[1].loops if e[0] == 'store' else (e[1].alloc_loops if e[0] == 'alloc' else e[1][4])
+    return bool(loops) and loops[0] is L
+
+
+def _saves_row(st, proxarr, W):
+    """img_distance[row, i] = line_proximity[i] over the row, or the slice form"""
+    v = st.value
+    if isinstance(v, Arr):
+        return v is proxarr
+    at = _one(v) if isinstance(v, Rat) else None
+    return at is not None and at.name in ('read', 'cell?') and at.args[0] == proxarr.name and st.arr is not proxarr and \
+        not isinstance(st.idx, str) and len(st.idx) == 2
+
+
+def _param_name(a):
+    if isinstance(a, Arr):
+        return a.name
+    if isinstance(a, tuple) and a[:1] == ('param',):
+        return a[1]
+    return None
+
+
+def _first(pred, atoms):
+    for a in atoms:
+        if isinstance(a, App) and pred(a):
+            return a
+    return None
+
+
+def _same_cell(r, arr, iv):
+    a = _one(r)
+    return a is not None and a.name in ('read', 'cell?') and a.args[0] == arr and a.args[1] == iv
+
+
+def _near_read(r, grid, nys, nxs, iv):
+    a = _one(r)
+    return a is not None and a.name in ('read', 'cell?') and a.args[0] == grid and len(a.args) >= 3 and \
+        _same_cell(a.args[1], nys, iv) and _same_cell(a.args[2], nxs, iv)
 
 
 def check_direction(prog, rep, m):
